@@ -526,20 +526,6 @@ End RoundTrip.
    remaining data and atEOF = true); Proofs/CsvChunks.v shows that any delivery of the same
    bytes in pieces yields the same records. *)
 
-Fixpoint read_all (fuel : nat) (c : csv_cfg) (s : csv_st) (data : bytes) : list event :=
-  match fuel with
-  | O => []
-  | S f =>
-    match scan c s data [] 0 true with
-    | (s', ORecord adv tok fields) => ERecord tok fields :: read_all f c s' (zdrop adv data)
-    | (s', OHeader adv names) => EHeader names :: read_all f c s' (zdrop adv data)
-    | _ => []
-    end
-  end.
-
-Definition read_file (c : csv_cfg) (data : bytes) : list event :=
-  read_all (S (length data)) c (mkSt false 0) data.
-
 Definition row_ok (fs : list bytes) : Prop := fs <> [] /\ fs <> [[]] /\ Forall (nob 13) fs.
 
 Lemma join_fields_encs sep fs : valid_sep sep -> Forall (nob 13) fs ->
